@@ -104,7 +104,7 @@ def gen_graph(rng, n_ns=None, n_nodes=None, hostile=True, closed=True, values_ok
                 elif a == "WriteMask":
                     n["attrs"][a] = str(rng.choice([0, 1, 4194303]))
                 elif a == "SymbolicName":
-                    n["attrs"][a] = gen.plain_text(rng, 2) + "_" + str(rng.randint(0, 99))
+                    n["attrs"][a] = "S" + "".join(ch for ch in gen.plain_text(rng, 2) if ch.isalnum()) + "_" + str(rng.randint(0, 99))
         if n["cls"] in ("UAVariable", "UAVariableType"):
             if n["cls"] == "UAVariable" and values_ok and rng.random() < 0.7:
                 v = values.rand_value(rng)
@@ -205,7 +205,7 @@ def nid_text(key, local):
     return ("ns=%d;" % k if k else "") + "%s=%s" % (t, ident)
 
 
-def serialise(rng, g, one_file=False, base_name=True, uri_rng=None):
+def serialise(rng, g, one_file=False, base_name=True, uri_rng=None, extras=True):
     """returns {filename: xml text}; one file per non-base namespace (nodes of namespace U go to U's file)"""
     files = {}
     groups = [g["uris"]] if one_file else [[u] for u in g["uris"]]
@@ -249,7 +249,7 @@ def serialise(rng, g, one_file=False, base_name=True, uri_rng=None):
         for u in grp:
             if u not in used:
                 used.append(u)
-        extra = ["http://unused.example/%d" % rng.randint(0, 9)] if rng.random() < 0.15 else []
+        extra = ["http://unused.example/%d" % rng.randint(0, 9)] if (rng.random() < 0.15 and extras) else []
         uris = list(used) + extra
         ur = uri_rng or rng
         ur.shuffle(uris)
